@@ -12,6 +12,8 @@
 import AferoVerif.Model.Cache
 import AferoVerif.Proofs.MemFile
 import AferoVerif.Proofs.Reach
+import AferoVerif.Proofs.CowContent
+import AferoVerif.Proofs.Util
 namespace AferoVerif.C11
 open AferoVerif
 
@@ -454,5 +456,99 @@ theorem openFile_hit_returns_twins (c : Cow) (dur : Int) (name : Str) (flag perm
     split <;> omega
   · show ((c.s.b.openFile (keyOfStr name) flag perm).1.obj bf).data = ((c.s.l.openFile (keyOfStr name) flag perm).1.obj lf).data
     rw [b4, l4, hco]
+
+/-! ### a write-open of an uncached (or stale) file copies it first -/
+
+theorem strip_and (flag A E : Nat) (h : A &&& E = 0) : (flag ^^^ (flag &&& A)) &&& E = flag &&& E := by
+  apply Nat.eq_of_testBit_eq
+  intro i
+  have hi := congrArg (fun x => x.testBit i) h
+  simp only [Nat.testBit_and, Nat.zero_testBit] at hi
+  simp only [Nat.testBit_and, Nat.testBit_xor]
+  cases hf : flag.testBit i <;> cases ha : A.testBit i <;> cases he : E.testBit i <;> simp_all
+
+theorem strip_self (flag A : Nat) : (flag ^^^ (flag &&& A)) &&& A = 0 := by
+  apply Nat.eq_of_testBit_eq
+  intro i
+  simp only [Nat.testBit_and, Nat.testBit_xor, Nat.zero_testBit]
+  cases hf : flag.testBit i <;> cases ha : A.testBit i <;> simp_all
+
+/-- the copy made by `copyFileToLayer` for a write-open without truncation: afterwards the base
+    still holds its bytes (its handle table back to what it was, plus one closed handle), and the
+    cache layer holds a byte-identical copy under the name -/
+theorem copyUpFlags_content (c : Cow) (name : Str) (flag perm bf : Nat)
+    (hb : c.s.b.lookup (keyOfStr name) = some bf) (hfile : (c.s.b.obj bf).dir = false)
+    (hbf : bf < c.s.b.objs.length) (hr : MemFs.InRange c.s.l)
+    (hx : flag &&& O_EXCL = 0) (ht : flag &&& O_TRUNC = 0) :
+    (Cache.copyUpFlags c name flag perm).2 = none ∧
+    (Cache.copyUpFlags c name flag perm).1.hs = c.hs ∧
+    (Cache.copyUpFlags c name flag perm).1.s.b.lookup (keyOfStr name) = some bf ∧
+    bf < (Cache.copyUpFlags c name flag perm).1.s.b.objs.length ∧
+    ((Cache.copyUpFlags c name flag perm).1.s.b.obj bf).data = (c.s.b.obj bf).data ∧
+    ∃ lf, (Cache.copyUpFlags c name flag perm).1.s.l.lookup (keyOfStr name) = some lf ∧
+      lf < (Cache.copyUpFlags c name flag perm).1.s.l.objs.length ∧
+      ((Cache.copyUpFlags c name flag perm).1.s.l.obj lf).data = (c.s.b.obj bf).data := by
+  have hx' : (flag ^^^ (flag &&& O_APPEND)) &&& O_EXCL = 0 := by rw [strip_and _ _ _ (by decide)]; exact hx
+  have ht' : ¬ ((flag ^^^ (flag &&& O_APPEND)) &&& O_TRUNC > 0 ∧ (flag ^^^ (flag &&& O_APPEND)) &&& (O_RDWR ||| O_WRONLY) > 0) := by
+    rw [strip_and _ _ _ (by decide), ht]; intro h; exact absurd h.1 (Nat.lt_irrefl 0)
+  have hap : ¬ ((flag ^^^ (flag &&& O_APPEND)) &&& O_APPEND > 0) := by rw [strip_self]; exact Nat.lt_irrefl 0
+  have hof := openFile_existing c.s.b (keyOfStr name) (flag ^^^ (flag &&& O_APPEND)) perm bf hb hx' ht'
+  unfold Cache.copyUpFlags
+  simp only [hof, hap, if_false]
+  -- the handle just opened sits at index handles.length, at offset 0, on object bf
+  have hget : (c.s.b.handles ++ [MHandle.mk bf (Handle.mk 0 (decide ((flag ^^^ (flag &&& O_APPEND)) &&& (O_WRONLY ||| O_RDWR) = 0)) false) 0]).getD c.s.b.handles.length default
+      = MHandle.mk bf (Handle.mk 0 (decide ((flag ^^^ (flag &&& O_APPEND)) &&& (O_WRONLY ||| O_RDWR) = 0)) false) 0 := by
+    rw [List.getD_eq_getElem?_getD, List.getElem?_append_right (Nat.le_refl _), Nat.sub_self]
+    rfl
+  simp only [hget, Int.toNat_zero]
+  have hobj : ({ c.s.b with handles := c.s.b.handles ++ [MHandle.mk bf (Handle.mk 0 (decide ((flag ^^^ (flag &&& O_APPEND)) &&& (O_WRONLY ||| O_RDWR) = 0)) false) 0] } : MemFs).obj bf = c.s.b.obj bf := rfl
+  obtain ⟨k1, lf, k2, k3, _, k5⟩ := copyFile_content
+    ({ c.s.b with handles := c.s.b.handles ++ [MHandle.mk bf (Handle.mk 0 (decide ((flag ^^^ (flag &&& O_APPEND)) &&& (O_WRONLY ||| O_RDWR) = 0)) false) 0] } : MemFs)
+    c.s.l name bf hr (by rw [hobj]; exact hfile)
+  have hcl := Util.hClose_keeps
+    ({ c.s.b with handles := c.s.b.handles ++ [MHandle.mk bf (Handle.mk 0 (decide ((flag ^^^ (flag &&& O_APPEND)) &&& (O_WRONLY ||| O_RDWR) = 0)) false) 0] } : MemFs)
+    c.s.b.handles.length (MHandle.mk bf (Handle.mk 0 (decide ((flag ^^^ (flag &&& O_APPEND)) &&& (O_WRONLY ||| O_RDWR) = 0)) false) 0) (by simp)
+  obtain ⟨_, c2, c3, c4⟩ := hcl
+  refine ⟨k1, trivial, ?_, ?_, ?_, lf, k2, k5 _ _ k2, ?_⟩
+  · show (MemFs.hClose _ _).1.lookup _ = _
+    rw [c2]; exact hb
+  · show bf < (MemFs.hClose _ _).1.objs.length
+    rw [c3]; exact hbf
+  · show ((MemFs.hClose _ _).1.obj bf).data = _
+    rw [(c4 bf).1]
+    rfl
+  · exact k3.trans (by rw [hobj])
+
+/-- **a write-open of an uncached or stale file copies it first and returns twins**: for a regular
+    base file that is a miss or stale, `OpenFile` with any write-access flags that neither truncate
+    nor demand exclusivity (O_APPEND included) first leaves a byte-identical copy in the cache and
+    then returns a union handle whose two sides are twins — what is written through it reaches both
+    layers identically (`union_twin_preserved`). -/
+theorem openFile_miss_returns_twins (c : Cow) (dur : Int) (name : Str) (flag perm bf : Nat)
+    (hst : Cache.cacheStatus c dur (keyOfStr name) = .miss ∨ Cache.cacheStatus c dur (keyOfStr name) = .stale)
+    (hw : flag &&& cowWriteMask ≠ 0) (hx : flag &&& O_EXCL = 0) (ht : flag &&& O_TRUNC = 0)
+    (hb : c.s.b.lookup (keyOfStr name) = some bf) (hfile : (c.s.b.obj bf).dir = false)
+    (hbf : bf < c.s.b.objs.length) (hr : MemFs.InRange c.s.l) :
+    ∃ u, (Cache.openFile c dur name flag perm).2 = .handle c.hs.length none ∧
+      (Cache.openFile c dur name flag perm).1.hs = c.hs ++ [.union u] ∧
+      Twin (Cache.openFile c dur name flag perm).1.s u := by
+  obtain ⟨p1, p2, p3, p4, p5, lf, p6, p7, p8⟩ := copyUpFlags_content c name flag perm bf hb hfile hbf hr hx ht
+  have hne : ¬ (Cache.cacheStatus c dur (keyOfStr name) = .local_ ∨ Cache.cacheStatus c dur (keyOfStr name) = .hit) := by
+    rcases hst with h | h <;> simp [h]
+  generalize hC : Cache.copyUpFlags c name flag perm = C at p1 p2 p3 p4 p5 p6 p7 p8
+  obtain ⟨c1, e1⟩ := C
+  simp only at p1 p2 p3 p4 p5 p6 p7 p8
+  subst p1
+  obtain ⟨b1, b2, b3, b4⟩ := openFile_existing_gen c1.s.b (keyOfStr name) flag perm bf p3 hx p4
+  obtain ⟨l1, l2, l3, l4⟩ := openFile_existing_gen c1.s.l (keyOfStr name) flag perm lf p6 hx p7
+  unfold Cache.openFile
+  simp only [hne, if_false, hC, hw, ne_eq, not_false_eq_true, if_true, b1, l1, Cow.addH, p2]
+  refine ⟨{ bi := c1.s.b.handles.length, li := c1.s.l.handles.length }, trivial, rfl, ?_⟩
+  refine ⟨_, _, b2, l2, ?_, ?_, by rw [b3]; exact p4, by rw [l3]; exact p7, ?_⟩
+  · rw [p5, p8]
+  · show (0 : Int) ≤ (if flag &&& O_APPEND > 0 then ((c1.s.b.obj bf).data.length : Int) else 0)
+    split <;> omega
+  · show ((c1.s.b.openFile (keyOfStr name) flag perm).1.obj bf).data = ((c1.s.l.openFile (keyOfStr name) flag perm).1.obj lf).data
+    rw [b4, l4, p5, p8]
 
 end AferoVerif.C11
